@@ -4,6 +4,22 @@ use crate::tlv::{FromBytes, ProtoBuf, ProtoBufMut, SerializedTlvStream, TlvEntry
 use serde_json::{json, Value};
 use std::panic::{catch_unwind, AssertUnwindSafe};
 
+/// `get_compact_size` returned a bare u64 before the truncation fix and a Result after it; the
+/// replay crate must build against either (and against mutated trees).
+trait CsOut {
+    fn norm(self) -> Result<u64, String>;
+}
+impl CsOut for u64 {
+    fn norm(self) -> Result<u64, String> {
+        Ok(self)
+    }
+}
+impl CsOut for Result<u64, anyhow::Error> {
+    fn norm(self) -> Result<u64, String> {
+        self.map_err(|e| e.to_string())
+    }
+}
+
 fn u(v: &Value) -> u64 {
     match v {
         Value::String(s) => s.parse().expect("u64 string"),
@@ -34,7 +50,7 @@ fn guarded<F: FnOnce() -> Value>(f: F) -> Value {
 fn stream_json(s: &SerializedTlvStream) -> Value {
     // entries are private; observe through to_bytes + from_bytes-independent walk of get()
     let bytes = SerializedTlvStream::to_bytes(s.clone());
-    json!({"reencoded": hex::encode(bytes)})
+    json!({"reencoded": hex::encode(bytes), "debug": format!("{:?}", s)})
 }
 
 pub fn run(kind: &str, input: &Value) -> Value {
@@ -94,8 +110,10 @@ pub fn run(kind: &str, input: &Value) -> Value {
         "get_compact_size" => guarded(|| {
             let b = bytes_of(&input["bytes"]);
             let mut s: &[u8] = &b[..];
-            let v = s.get_compact_size();
-            json!({"outcome": "ok", "value": v.to_string(), "remaining": s.len()})
+            match s.get_compact_size().norm() {
+                Ok(v) => json!({"outcome": "ok", "value": v.to_string(), "remaining": s.len()}),
+                Err(e) => json!({"outcome": "err", "message": e}),
+            }
         }),
         "put_compact_size" => guarded(|| {
             let mut b = bytes::BytesMut::new();
